@@ -461,6 +461,10 @@ def content_classes(data):
     for ch, nm in ((b"<", "lt"), (b"&", "amp"), (b">", "gt"), (b"\r", "cr"), (b'"', "quot"), (b"\t", "tab"), (b"\n", "nl")):
         if ch in data:
             cls.add(nm)
+    if b"\r\n" in data:
+        cls.add("crlf")        # libxml2 turns CR LF into one LF on input: the content gets shorter than length=
+    if re.match(rb"[ \t\n]+\r", data) and data.strip(b" \t\n\r"):
+        cls.add("blankcr")     # blanks then CR then text: libxml2 delivers the blank prefix as its own chunk and NOBLANKS drops it
     if b"]]>" in data:
         cls.add("cdend")
     if data and not data.strip(b" \t\n\r"):
@@ -637,6 +641,16 @@ def judge_rt(r, ver, flags):
         if int(a["tm"]) != tm[i]:
             v.stale_tm += 1
             a["tm"] = str(tm[i])
+    # group.depth is derived too (rank of the object's level among the Group levels; not exported, recomputed at load);
+    # restrict can leave it stale in the original: compare with the value recomputed from the original's levels
+    glev = sorted(int(l.split(" ")[1]) for l in r["A"] if l.startswith("L ") and l.split(" ")[2] == "13" and int(l.split(" ")[1]) >= 0)
+    for a in A:
+        if a["ty"] == "13" and a.get("at", "-").startswith("gdepth:") and int(a["dp"]) in glev:
+            want = "gdepth:%d" % glev.index(int(a["dp"]))
+            cur = a["at"].split(",")[0]
+            if cur != want:
+                v.stale_tm += 1
+                a["at"] = want + a["at"][len(cur):]
     for a, b in zip(A, B):
         for f in fields:
             if a.get(f) != b.get(f):
@@ -710,6 +724,10 @@ def judge_rt(r, ver, flags):
         if la != lb:
             cls = "count" if len(la) != len(lb) else "value"
             first = next((i for i, (x, y) in enumerate(zip(la, lb)) if x != y), min(len(la), len(lb)))
+            if tag == "MAT" and first < len(la) and isinstance(la[first], str):
+                locs = [t.split("=")[0] for t in la[first].split(" ") if t[:1] in "co" and "=" in t]
+                if len(locs) != len(set(locs)):
+                    cls = "duplicate-initiators-in-original"      # two initiators of one target became equal (restrict shrank their cpusets)
             v.add("%s:%s" % (label, cls), "%s listing differs after reload (entry %d): %r -> %r" % (label, first, (la[first] if first < len(la) else None), (lb[first] if first < len(lb) else None)))
     if flags & 8:
         sa, sb = kv(ga["SU"][0]), kv(gb["SU"][0])
@@ -727,7 +745,8 @@ def judge_rt(r, ver, flags):
             ok = strip(x1b) == strip(x2b)
         if not ok:
             v.add("second-export-differs" + (":after-userdata-loss" if any(k.startswith("userdata-bytes:plain") or k.startswith("userdata-count:plain") for k, _ in v.items)
-                                             else ":after-ccs-normalisation" if any(k.startswith("obj-field:ccs:memory-child") for k, _ in v.items) else ""), "exporting the reloaded topology does not give the same bytes: %s" % first_diff(r))
+                                             else ":after-ccs-normalisation" if any(k.startswith("obj-field:ccs:memory-child") for k, _ in v.items)
+                                             else ":after-duplicate-initiators" if any(k.startswith("memattr-values:duplicate-initiators") for k, _ in v.items) else ""), "exporting the reloaded topology does not give the same bytes: %s" % first_diff(r))
     return v
 
 
